@@ -187,11 +187,14 @@ namespace foonathan
                     if (!mem)
                     {
                         // reserve more then the default capacity if that didn't work either
+                        // (whole nodes of this pool, whose node size may be bigger than node_size)
+                        auto array_size = (count * node_size + pool.node_size() - 1)
+                                          / pool.node_size() * pool.node_size();
                         detail::check_allocation_size<bad_array_size>(
-                            count * node_size,
-                            [&] { return next_capacity() - pool.alignment() + 1; }, info());
+                            array_size, [&] { return next_capacity() - pool.alignment() + 1; },
+                            info());
 
-                        block = reserve_memory(pool, count * node_size);
+                        block = reserve_memory(pool, array_size);
                         pool.insert(block.memory, block.size);
 
                         mem = pool.allocate(count * node_size);
